@@ -819,6 +819,8 @@ func TestC33(t *testing.T) {
 		Cases:           map[string]int{"quick": enumCases + 500, "thorough": enumCases + 12000},
 		RequireCounters: []string{"roundtrip_plain", "roundtrip_p1", "roundtrip_d1", "roundtrip_join", "roundtrip_leave", "e2e_p1", "e2e_d1", "e2e_join", "total_rejected", "total_accepted", "enum_inputs", "mutated_inputs"},
 		Run:             run,
+		// tiny live heap, millions of short-lived strings: collect less often (harness-side only)
+		Setup: func() { debug.SetGCPercent(2000) },
 	})
 }
 
